@@ -109,7 +109,8 @@ COST = {'C19': 1, 'C11': 2, 'C18': 5, 'C03': 6, 'C04': 6, 'C17': 6, 'C05': 7, 'C
         'C06': 13, 'C20': 15, 'C10': 30, 'C09': 40, 'C08': 45, 'C01': 85, 'C02': 120}
 FILEPROPS = {}
 EXTRA = {'geom/line.go': ['C03', 'C09', 'C02'], 'geom/rtree.go': ['C09', 'C03', 'C01'], 'geom/alg_point_in_ring.go': ['C15', 'C01'],
-         'geom/type_sequence.go': ['C03'], 'geom/xy.go': ['C09', 'C13']}
+         'geom/type_sequence.go': ['C03'], 'geom/xy.go': ['C09', 'C13'],
+         'geom/type_geometry_collection.go': ['C10'], 'geom/type_multi_line_string.go': ['C10'], 'geom/type_multi_polygon.go': ['C10']}
 ALL = False
 
 
